@@ -228,3 +228,20 @@ PROPS['C03'] = dict(
     bounds='<= 5 sources, <= 80 steps, <= 16 slots', trusted_base=TB_SIM + ['refmd5 self-tested against RFC 1321 vectors'],
     assumptions=AS_SIM + ['MD5 collisions ignored'],
 )
+
+PROPS['C20'] = dict(
+    bin='c20', sources=['props/c20.cc'] + SIMSRC2, unit_objs=UNIT, images=IMGS, engine='rc',
+    enum_parts=7, exhaustive_claim=True,
+    quick=dict(workers=6, cases=8000, budget=40, min_nontrivial=100),
+    thorough=dict(workers=16, cases=200000, budget=900, min_nontrivial=5000),
+    rule='system case (2 in 3) = real iodined -b + 1..20 requesters (IPv4 pairs sharing an address, IPv6) + scripted local resolver + optional tunnel '
+         'session; <= 80 actions: a requester asks for one of 9 names outside the tunnel domain (look-alikes of the domain included) with an id from '
+         'a set of 3..20 ids (or 0) and one of 11 types; the resolver replies to one of the last 24 forwarded queries or with an id never forwarded, '
+         'once or twice. Oracle: each request produces exactly one well-formed query with the same id, name, type at the local DNS port; a reply with '
+         'id X is sent unchanged, at most once per copy, only to requesters that used X among the 16 most recently forwarded queries, to at least one '
+         'of them, and to nobody if there is none. unit case (1 in 3) = random put/get sequences on fw_query against the last-16 model. non-trivial iff '
+         '> 16 outstanding, an id was reused and an unmatched reply occurred (system) / > 16 puts (unit)',
+    exhaustive_text='fw_query_put/get: every prefix of 0..20 distinct-id puts x every sequence of 5 operations over put(id 0..2, requester 0..1) / get(id 0..3) (2.1 M sequences)',
+    engine_text='rapidcheck over choice tapes + bounded exhaustive enumeration; simnet hosting the real iodined with -b; unit shape for fw_query.c',
+    bounds='<= 20 requesters, <= 80 actions', trusted_base=TB_SIM, assumptions=AS_SIM,
+)
